@@ -51,3 +51,91 @@ package bitmap
 //@   requires start <= end && i <= uint(end - start) && j <= uint(end - start) && i != j
 //@   ensures[C04:v4-blocks-distinct] start + uint32(i) != start + uint32(j)
 //@   ensures[C05:v4-blocks-in-range] start + uint32(i) >= start && start + uint32(i) <= end
+
+// ---------------------------------------------------------------------------
+// IPv6 fixed-size prefix allocator. Abstract view: bits(a.bitmap)[i] <=> block i is
+// outstanding, where block i is the /page prefix based at containing.IP + i*2^(128-page).
+
+//@ guard Allocator.bitmap by l
+
+//@ pure func plen(a *Allocator) int = ones128(u128(a.containing.Mask))
+//@ pure func wf6(a *Allocator) bool = a != nil && a.bitmap != nil && \
+//@     len(a.containing.IP) == 16 && len(a.containing.Mask) == 16 && \
+//@     0 <= plen(a) && plen(a) <= a.page && a.page <= 128 && a.page - plen(a) < 64 && \
+//@     u128(a.containing.Mask) == cidr128(plen(a)) && aligned(u128(a.containing.IP), plen(a)) && \
+//@     blen(a.bitmap) == uint(1) << uint(a.page - plen(a)) && \
+//@     (forall i uint: i >= blen(a.bitmap) ==> !bits(a.bitmap)[i])
+//@ pure func inpool6(a *Allocator, x bv128) bool = (x & u128(a.containing.Mask)) == u128(a.containing.IP)
+//@ pure func idx6(a *Allocator, x bv128) uint = uint(trunc(64, (x - u128(a.containing.IP)) >> (128 - a.page)))
+//@ pure func block6(a *Allocator, i uint) bv128 = u128(a.containing.IP) + (zext(128, i) << (128 - a.page))
+//@ pure func hintlen6(a *Allocator, m net.IPMask) int = \
+//@     ite(len(m) == 16 && canon128(u128(m)) && ones128(u128(m)) >= a.page, ones128(u128(m)), a.page)
+// the 128-bit value a hint names: 16-byte form as is, 4-byte form as its IPv4-mapped address
+//@ pure func hint128(ip net.IP) bv128 = ite(len(ip) == 16, u128(ip), zext(128, u32be(ip)) | bv(128, 281470681743360))
+//@ pure func hintok(ip net.IP) bool = len(ip) == 16 || len(ip) == 4
+
+// toIndex is total on 16-byte addresses that are at or above the pool base, or page-aligned
+// below it (where allocators.Offset is specified): the absolute block distance to the base.
+//@ func (*Allocator).toIndex
+//@   requires wf6(a) && len(base) == 16
+//@   requires u128(base) >= u128(a.containing.IP) || aligned(u128(base), a.page)
+//@   modifies nothing
+//@   ensures (err == nil) <==> (blockdist(u128(base), u128(a.containing.IP), a.page) < (bv(128, 1) << 64))
+//@   ensures err == nil ==> zext(128, ret) == blockdist(u128(base), u128(a.containing.IP), a.page)
+//@   ensures inpool6(a, u128(base)) ==> (err == nil && ret == idx6(a, u128(base)) && ret < blen(a.bitmap))
+//@   ensures (!inpool6(a, u128(base)) && u128(base) >= u128(a.containing.IP)) ==> (err != nil || ret >= blen(a.bitmap))
+//@   split a.page 0..128
+
+//@ func (*Allocator).toPrefix
+//@   requires wf6(a) && idx < blen(a.bitmap)
+//@   modifies nothing
+//@   ensures ret1 == nil && len(ret0) == 16 && u128(ret0) == block6(a, idx)
+//@   ensures inpool6(a, u128(ret0)) && idx6(a, u128(ret0)) == idx && aligned(u128(ret0), a.page)
+//@   split a.page 0..128
+
+//@ func (*Allocator).Allocate
+//@   requires wf6(a) && !held(a.l)
+//@   modifies bits(a.bitmap), blen(a.bitmap), held(a.l)
+//@   ensures wf6(a) && !held(a.l)
+//@   ensures[C05:fails-iff-full] (err != nil) <==> (forall i uint in 0..blen(a.bitmap): old(bits(a.bitmap))[i])
+//@   ensures[C05:failure-changes-nothing] err != nil ==> (err == allocators.ErrNoAddrAvail && bits(a.bitmap) == old(bits(a.bitmap)))
+//@   ensures[C04,C05:in-pool-aligned-and-was-free] err == nil ==> (len(ret.IP) == 16 && inpool6(a, u128(ret.IP)) && aligned(u128(ret.IP), a.page) && \
+//@       idx6(a, u128(ret.IP)) < blen(a.bitmap) && u128(ret.IP) == block6(a, idx6(a, u128(ret.IP))) && \
+//@       !old(bits(a.bitmap))[idx6(a, u128(ret.IP))] && \
+//@       bits(a.bitmap) == upd(old(bits(a.bitmap)), idx6(a, u128(ret.IP)), true))
+//@   ensures[C05:prefix-length] err == nil ==> (len(ret.Mask) == 16 && u128(ret.Mask) == cidr128(hintlen6(a, hint.Mask)))
+//@   ensures[C07:hint-honoured] (hintok(hint.IP) && inpool6(a, hint128(hint.IP)) && !old(bits(a.bitmap))[idx6(a, hint128(hint.IP))]) ==> \
+//@       (err == nil && u128(ret.IP) == block6(a, idx6(a, hint128(hint.IP))))
+
+// "well-formed prefix" (C06): 16-byte address and 16-byte mask; pb is its masked base.
+//@ pure func pbase(p net.IPNet) bv128 = u128(p.IP) & u128(p.Mask)
+
+//@ func (*Allocator).Free
+//@   requires wf6(a) && !held(a.l)
+//@   requires len(prefix.IP) == 16 && len(prefix.Mask) == 16
+//@   modifies bits(a.bitmap), held(a.l)
+//@   ensures wf6(a) && !held(a.l)
+//@   ensures[C06:succeeds-iff-outstanding] (ret == nil) <==> (inpool6(a, pbase(prefix)) && old(bits(a.bitmap))[idx6(a, pbase(prefix))])
+//@   ensures[C06:releases-exactly-that] ret == nil ==> bits(a.bitmap) == upd(old(bits(a.bitmap)), idx6(a, pbase(prefix)), false)
+//@   ensures[C06:failure-changes-nothing] ret != nil ==> bits(a.bitmap) == old(bits(a.bitmap))
+
+//@ func NewBitmapAllocator
+//@   requires len(pool.IP) == 16 && len(pool.Mask) == 16
+//@   requires canon128(u128(pool.Mask)) && aligned(u128(pool.IP), ones128(u128(pool.Mask)))
+//@   requires 0 <= size && size <= 128
+//@   modifies nothing
+//@   ensures[C05:accepts-iff-representable] (ret1 == nil) <==> (size >= ones128(u128(pool.Mask)) && size - ones128(u128(pool.Mask)) < 64)
+//@   ensures[C04,C05:empty-and-exact-size] ret1 == nil ==> (fresh(ret0) && wf6(ret0) && !held(ret0.l) && ret0.page == size && \
+//@       ret0.containing.IP == pool.IP && ret0.containing.Mask == pool.Mask && bits(ret0.bitmap) == emptyset(uint))
+//@   ensures ret1 != nil ==> ret0 == nil
+
+// Geometry of the pool (C04/C05): distinct indices below the pool size are distinct,
+// in-pool, page-aligned blocks that do not overlap.
+//@ lemma v6_blocks(base bv128, L int, page int, i uint64, j uint64)
+//@   requires 0 <= L && L <= page && page <= 128 && page - L < 64 && aligned(base, L)
+//@   requires i < (uint64(1) << uint64(page - L)) && j < (uint64(1) << uint64(page - L)) && i != j
+//@   ensures[C05:v6-block-in-pool] nthblock(base, i, uint64(page)) < (bv(192, 1) << 128)
+//@   ensures[C05:v6-block-in-pool] (trunc(128, nthblock(base, i, uint64(page))) >> (128 - L)) == (base >> (128 - L))
+//@   ensures[C05:v6-block-aligned] aligned(trunc(128, nthblock(base, i, uint64(page))), page)
+//@   ensures[C04:v6-blocks-disjoint] (trunc(128, nthblock(base, i, uint64(page))) >> (128 - page)) != (trunc(128, nthblock(base, j, uint64(page))) >> (128 - page))
+//@   split page 0..128
